@@ -16,12 +16,22 @@ open KB Generated
 def castRev (x : Int) : Nat := (x % (2 ^ 64 : Int)).toNat
 
 theorem cast_nonneg (x : Int) (h0 : 0 ≤ x) (h1 : x < 2 ^ 63) : castRev x = x.toNat := by
-  sorry
+  unfold castRev
+  have e : (2 : Int) ^ 64 = 18446744073709551616 := by decide
+  have e3 : (2 : Int) ^ 63 = 9223372036854775808 := by decide
+  rw [e]; rw [e3] at h1
+  rw [Int.emod_eq_of_lt h0 (by omega)]
 
 /-- A negative etcd revision becomes a revision at or above 2^63: beyond anything ever dealt. -/
 theorem cast_negative_is_far_future (x : Int) (hx : x < 0) (hlo : -(2 ^ 63 : Int) ≤ x) :
     2 ^ 63 ≤ castRev x ∧ castRev x < 2 ^ 64 := by
-  sorry
+  unfold castRev
+  have e : (2 : Int) ^ 64 = 18446744073709551616 := by decide
+  have e3 : (2 : Int) ^ 63 = 9223372036854775808 := by decide
+  have n : (2 : Nat) ^ 64 = 18446744073709551616 := by decide
+  have n3 : (2 : Nat) ^ 63 = 9223372036854775808 := by decide
+  rw [e]; rw [e3] at hlo; rw [n, n3]
+  omega
 
 /-- Such a guarded update is rejected with the drift error in its very first step, and the revision it
 consumed is reported to the sequencer (slot filled): it cannot wedge the node. -/
@@ -30,7 +40,18 @@ theorem far_future_update_rejected_and_resolved (g : G) (id : Nat) (k v : Bytes)
     let g' := run g [.begin id (.update k v exp), .step id .none]
     g'.client id = none ∧ (∃ d ∈ g'.done, d.id = id ∧ d.res = .error .drift ∧ d.rev = g.dealt + 1) ∧
     (∃ w ∈ g'.slots, w.rev = g.dealt + 1 ∧ w.valid = false) := by
-  sorry
+  intro g'
+  have hg' := run_update_drift g id k v exp hfree hexp
+  refine ⟨?_, ?_, ?_⟩
+  · show G.client (run _ _) id = none
+    rw [hg']; exact hfree
+  · refine ⟨{ id := id, kind := .update k v exp, res := .error .drift, rev := g.dealt + 1,
+              beginDealt := g.dealt, endDealt := g.dealt + 1 }, ?_, rfl, rfl, rfl⟩
+    show _ ∈ G.done (run _ _)
+    rw [hg']; exact List.mem_append_right _ (List.mem_singleton.mpr rfl)
+  · refine ⟨mkW (g.dealt + 1) exp false .put k v, ?_, rfl, rfl⟩
+    show _ ∈ G.slots (run _ _)
+    rw [hg']; exact List.mem_append_right _ (List.mem_singleton.mpr rfl)
 
 /-- Same for a guarded delete of an existing key. -/
 theorem far_future_delete_rejected_and_resolved (g : G) (id : Nat) (k : Bytes) (exp : Nat)
@@ -39,32 +60,116 @@ theorem far_future_delete_rejected_and_resolved (g : G) (id : Nat) (k : Bytes) (
     let g' := run g [.begin id (.delete k exp), .step id .none, .step id .none]
     g'.client id = none ∧ (∃ d ∈ g'.done, d.id = id ∧ d.res = .error .drift ∧ d.rev = g.dealt + 1) ∧
     (∃ w ∈ g'.slots, w.rev = g.dealt + 1 ∧ w.valid = false) := by
-  sorry
+  intro g'
+  have hg' := run_delete_drift g id k exp hfree hexp v m hfound
+  refine ⟨?_, ?_, ?_⟩
+  · show G.client (run _ _) id = none
+    rw [hg']; exact hfree
+  · refine ⟨{ id := id, kind := .delete k exp, res := .error .drift, rev := g.dealt + 1,
+              beginDealt := g.dealt, endDealt := g.dealt + 1 }, ?_, rfl, rfl, rfl⟩
+    show _ ∈ G.done (run _ _)
+    rw [hg']; exact List.mem_append_right _ (List.mem_singleton.mpr rfl)
+  · refine ⟨mkW (g.dealt + 1) m false .delete k v, ?_, rfl, rfl⟩
+    show _ ∈ G.slots (run _ _)
+    rw [hg']; exact List.mem_append_right _ (List.mem_singleton.mpr rfl)
 
-/-- Keeps serving: in ANY state reachable by ANY requests (hostile or not, with storage faults), once
-nothing is in flight, a create of a key that has no index record succeeds at the next revision, the
-sequencer then makes it readable (committed reaches it), and the point read returns it. -/
+/-- Counterexample to `probe_after_anything` as stated. From the empty initial state, request 1 creates the
+hostile key `"2$\xff\xff\xff\xff\xff\xff\xff\xfe"` (it contains the split byte `$`, so it is outside the documented
+alphabet) and the sequencer consumes it: the state is quiescent, `dealt = committed = 1`. The probe creates
+`"2"`: the create succeeds at revision 2 and `committed` reaches 2 — but every internal key of the hostile
+key lies between `("2", 2)` and `("2", 2^64-1)`, so the descending point read of `"2"` meets a record of the
+other key first, decode-and-compare fails and the read answers "not found". All hypotheses of
+`probe_after_anything` hold (also `v ≠ []` and the identifier is unused). -/
+def cexHostile : Bytes := [50, 36, 255, 255, 255, 255, 255, 255, 255, 254]
+def cexSched : List Action := [.begin 1 (.create cexHostile [1]), .step 1 .none, .step 1 .none, .seq]
+def cexG : G := run {} cexSched
+
+theorem probe_after_anything_counterexample :
+    C02.Init {} ∧ C02.StoreOK {} ∧ Reachable {} cexG ∧ cexG.clients = [] ∧ cexG.dealt + 1 < 2 ^ 64 ∧
+    cexG.cfg.q.casMissingNotFound = false ∧ Alphabet [50] ∧ ([1] : Bytes) ≠ tombstone ∧ ([1] : Bytes) ≠ [] ∧
+    cexG.store.get (idxKey [50]) = none ∧
+    (let g1 := run cexG ([.begin 7 (.create [50] [1]), .step 7 .none, .step 7 .none] ++
+                      List.replicate (cexG.dealt + 1 - cexG.committed) Action.seq)
+     (∃ d ∈ g1.done, d.id = 7 ∧ d.res = .ok (cexG.dealt + 1)) ∧ g1.committed = cexG.dealt + 1 ∧
+     bget g1.cfg g1.store [50] 0 = .notFound 0 ∧
+     bget g1.cfg g1.store [50] 0 ≠ .found [1] (cexG.dealt + 1)) := by
+  refine ⟨⟨by decide, rfl, rfl, rfl⟩, ⟨[], rfl, List.Pairwise.nil, by simp, by decide⟩, ⟨cexSched, rfl⟩,
+    by decide, by decide, by decide, by decide, by decide, by decide, by decide, ?_, by decide, by decide, by decide⟩
+  exact ⟨⟨7, .create [50] [1], .ok 2, 2, 1, 2⟩, by decide, by decide, by decide⟩
+
+/-- hence the statement of `probe_after_anything` is refutable -/
+theorem probe_after_anything_false :
+    ¬ (∀ {g0 g : G} (_ : C02.Init g0) (_ : C02.StoreOK g0) (_ : Reachable g0 g)
+      (_ : g.clients = []) (_ : g.dealt + 1 < 2 ^ 64) (_ : g.cfg.q.casMissingNotFound = false)
+      (id : Nat) (k v : Bytes) (_ : Alphabet k) (_ : v ≠ tombstone)
+      (_ : g.store.get (idxKey k) = none),
+      let g1 := run g ([.begin id (.create k v), .step id .none, .step id .none] ++
+                        List.replicate (g.dealt + 1 - g.committed) Action.seq)
+      (∃ d ∈ g1.done, d.id = id ∧ d.res = .ok (g.dealt + 1)) ∧ g1.committed = g.dealt + 1 ∧
+      bget g1.cfg g1.store k 0 = .found v (g.dealt + 1)) := by
+  intro h
+  obtain ⟨h0, hs, hr, hq, hb, hcm, hk, hv, _, hfresh, _, _, _, hne⟩ := probe_after_anything_counterexample
+  exact hne (h h0 hs hr hq hb hcm 7 [50] [1] hk hv hfresh).2.2
+
+/-- Corrected statement: the same, for a store that holds only records of keys over the documented alphabet
+(`hal`; true of every state reached by requests whose keys are over the alphabet, see
+`probe_after_alphabet_requests`). The first two conjuncts (the create succeeds, the read revision catches up)
+do not need `hal`. -/
 theorem probe_after_anything {g0 g : G} (h0 : C02.Init g0) (hs : C02.StoreOK g0) (hr : Reachable g0 g)
-    (hq : g.clients = []) (hb : g.dealt + 1 < 2 ^ 64) (hcm : g.cfg.q.casMissingNotFound = false)
+    (hq : g.clients = []) (hb : g.dealt + 1 < 2 ^ 64) (_hcm : g.cfg.q.casMissingNotFound = false)
+    (hal : ∀ kv ∈ g.store, ∃ k' r, kv.1 = encode k' r ∧ Alphabet k')
     (id : Nat) (k v : Bytes) (hk : Alphabet k) (hv : v ≠ tombstone)
     (hfresh : g.store.get (idxKey k) = none) :
     let g1 := run g ([.begin id (.create k v), .step id .none, .step id .none] ++
                       List.replicate (g.dealt + 1 - g.committed) Action.seq)
     (∃ d ∈ g1.done, d.id = id ∧ d.res = .ok (g.dealt + 1)) ∧ g1.committed = g.dealt + 1 ∧
-    bget g1.cfg g1.store k 0 = .found v (g.dealt + 1) := by
-  sorry
+    bget g1.cfg g1.store k 0 = .found v (g.dealt + 1) :=
+  probe_serves h0 hs hr hq hb hal id k v hk hv hfresh
+
+/-- The corrected statement at the level of requests: after ANY schedule (any interleaving, any expected
+revisions, any values, storage faults, retries) of requests whose keys are over the documented alphabet, once
+nothing is in flight, a create of a key without index record succeeds at the next revision, the read revision
+catches up and the point read returns it. -/
+theorem probe_after_alphabet_requests {g0 : G} (h0 : C02.Init g0) (hs : C02.StoreOK g0) (sched : List Action)
+    (hsa : ∀ a ∈ sched, ∀ id kind, a = .begin id kind → Alphabet kind.key)
+    (hq : (run g0 sched).clients = []) (hb : (run g0 sched).dealt + 1 < 2 ^ 64)
+    (id : Nat) (k v : Bytes) (hk : Alphabet k) (hv : v ≠ tombstone)
+    (hfresh : (run g0 sched).store.get (idxKey k) = none) :
+    let g := run g0 sched
+    let g1 := run g ([.begin id (.create k v), .step id .none, .step id .none] ++
+                      List.replicate (g.dealt + 1 - g.committed) Action.seq)
+    (∃ d ∈ g1.done, d.id = id ∧ d.res = .ok (g.dealt + 1)) ∧ g1.committed = g.dealt + 1 ∧
+    bget g1.cfg g1.store k 0 = .found v (g.dealt + 1) :=
+  probe_serves h0 hs ⟨sched, rfl⟩ hq hb ((AlphaInv.init h0 hs).run sched hsa).st id k v hk hv hfresh
 
 /-- `Decode` never panics on what the store holds: every internal key written by the backend is an
 `encode k r`, which is at least 13 bytes long and decodes. -/
 theorem stored_keys_decode (k : Bytes) (r : Nat) (hr : r < 2 ^ 64) :
     decode (encode k r) = .ok k r ∧ 13 ≤ (encode k r).length := by
-  sorry
+  refine ⟨decode_encode k r hr, ?_⟩
+  rw [encode_length, magic_length]; omega
 
 /-- and the two raw records outside the magic range (`<prefix>/compact_key`) are never handed to
 `Decode` by a scan of an object range: they do not lie between two encoded bounds. -/
 theorem compact_key_outside_object_ranges (c : Cfg) (a b : Bytes) (ha : Alphabet a) (hb : Alphabet b)
     (h0 : c.pfx.head? ≠ some 87) :
     ¬ (ble (encode a 0) (compactKeyOf c) = true ∧ blt (compactKeyOf c) (encode b 0) = true) := by
-  sorry
+  have _ := ha; have _ := hb
+  rintro ⟨h1, h2⟩
+  rw [ble_iff] at h1
+  rw [blt_iff] at h2
+  cases hp : c.pfx with
+  | nil =>
+    apply h1
+    simp [compactKeyOf, hp, encode, magic, cmp_cons_cons]
+  | cons x xs =>
+    rw [hp] at h0
+    simp only [List.head?_cons, ne_eq, Option.some.injEq] at h0
+    simp only [compactKeyOf, hp, encode, magic, List.cons_append, cmp_cons_cons] at h1 h2
+    by_cases hx : x < 87
+    · simp [hx] at h1
+      omega
+    · have : 87 < x := by omega
+      simp [this, hx] at h2
 
 end KB.C20Requests
